@@ -1206,7 +1206,7 @@ def check(ctx, res):
         'per password history (PATCH/PUT /device over HTTP, set/save/load/reset/restart/factory reset directly; passwords '
         'from a pool incl. the empty one): after every operation a batch of probes at a frozen clock (real date, no real '
         'date, around OLD_TIME_LIMIT; fractional seconds): no header, GET /device, a valid token, a sample of the '
-        'single-field mutations (once per history: all of them, ~300), tokens made by the real make_auth_header, garbage, '
+        'single-field mutations (in every fifth history: all ~330 of them at one point), tokens made by the real make_auth_header, garbage, '
         'device-origin tokens. Each consumer header is evaluated by parse_auth_header directly and, when it survives HTTP '
         'transport unchanged, by GET /api/access. evaluations = implementation calls; distinct non-trivial = distinct '
         '(header, history prefix, clock) whose token text is three base64url segments with JSON-object header and payload'
@@ -1230,7 +1230,7 @@ def check(ctx, res):
 def search(ctx, res):
     """the proof or the tie broke: look harder for a concrete failing input (spec oracle vs implementation)"""
     nh, na, npr = budget(ctx)
-    hs = [gen_history(ctx.rng, na, npr * 3, 300, sweep=True) for _ in range(nh * (3 if ctx.tier == 'quick' else 1))]
+    hs = [gen_history(ctx.rng, na, npr * 2, 300, sweep=(i % 3 == 0)) for i in range(nh * (2 if ctx.tier == 'quick' else 1))]
     run_histories(ctx, res, hs, 'search')
 
 
